@@ -58,12 +58,14 @@ def gregion(mod, name, value):
     return Region('@' + name, 'global', n, mem, writable=True)
 
 
-def ext_models(dgram=None, writes=None):
+def ext_models(dgram=None, writes=None, concrete_clock=False, max_writes=None):
     def clock_gettime(m, args, ins):
         p = args[1]
         r = m.region_of(p, 'clock_gettime')
+        fixed = (1700000000).to_bytes(8, 'big' if m.mod.big_endian else 'little') + \
+            (123456789).to_bytes(8, 'big' if m.mod.big_endian else 'little')
         for i in range(16):
-            r.mem[p.off + i] = tuple(('A', 'now', 8 * i + b) for b in range(8))
+            r.mem[p.off + i] = tuple(('A', 'now', 8 * i + b) for b in range(8)) if not concrete_clock else fixed[i]
         return 0
 
     def noop(m, args, ins):
@@ -84,17 +86,24 @@ def ext_models(dgram=None, writes=None):
         r = m.region_of(buf, 'write')
         writes.append([r.get(buf.off + i) for i in range(n)])
         m.w.events.append(('write', n))
+        if max_writes is not None and len(writes) > max_writes:
+            # more frames than the packet carried: the verdict (frame count) is settled, do not follow a listener that
+            # may be walking the packet in circles
+            raise bpa.Halt()
         return n
     return {'clock_gettime': clock_gettime, 'fprintf': noop, 'perror': noop, 'printf': noop, 'puts': noop,
             'recv': recv, 'write': write}
 
 
-def frame_region(mod, k, cls, L, fd, concrete_flags=False):
+def frame_region(mod, k, cls, L, fd, concrete_flags=False, concrete_id=False):
     """well-formed input frame k: symbolic identifier / flags / data, concrete length.  With concrete_flags the
     RTR and FD flag bits are fixed, frame-dependent constants (bulk packets: keeps the listener on one path)"""
     r = Region('frame%d' % k, 'sym', 72)
     nid = 11 if cls == 'std' else 29
     idbits = [('A', 'id%d' % k, i) for i in range(nid)] + [0] * (29 - nid)
+    if concrete_id:
+        cv = (0x155 + 0x2b * k) & 0x7ff if cls == 'std' else (0x1234567 + 0x10203 * k) & 0x1fffffff
+        idbits = [(cv >> i) & 1 for i in range(29)]
     rtr = ('A', 'rtr%d' % k, 0) if not concrete_flags else (k % 3 == 1) * 1
     can_id = idbits + [0, rtr, 1 if cls == 'ext' else 0]
     for i in range(4):
@@ -112,6 +121,23 @@ def frame_region(mod, k, cls, L, fd, concrete_flags=False):
 
 
 def talker(tm, use_tscf, use_udp, fd, frames):
+    """Input generality ladder: level 0 = identifiers, RTR and FD flags and the timestamp symbolic (bulk packets:
+    flags concrete); if the talker's control turns out to depend on those data (more worlds than the cap), level 1
+    fixes flags and timestamp, level 2 also the identifiers - data octets stay symbolic throughout.  The level used
+    is reported with the scenario."""
+    err = None
+    for level, cap in ((0, 16), (1, 32), (2, 32)):
+        outs, err = talker_at(tm, use_tscf, use_udp, fd, frames, level, cap)
+        if outs is not None:
+            for o in outs:
+                o['level'] = level
+            return outs, None
+        if 'more than' not in err:
+            break
+    return None, err
+
+
+def talker_at(tm, use_tscf, use_udp, fd, frames, level, cap):
     """The talker's real main() is interpreted for one packet: argument parsing and socket helpers are replaced by
     models, read() on the CAN socket delivers the input frames, the first sendto() records the packet and ends the
     run.  -> (dict(img, len, acf, cf, ids), None) or (None, error)"""
@@ -125,7 +151,7 @@ def talker(tm, use_tscf, use_udp, fd, frames):
     flg = []
     bulk = len(frames) > 3
     for k, (cls, L) in enumerate(frames):
-        r, cid, fl = frame_region(tm, k, cls, L, fd, concrete_flags=bulk)
+        r, cid, fl = frame_region(tm, k, cls, L, fd, concrete_flags=bulk or level >= 1, concrete_id=level >= 2)
         regs[r.name] = r
         ids.append(cid)
         flg.append(fl)
@@ -148,10 +174,9 @@ def talker(tm, use_tscf, use_udp, fd, frames):
         if not isinstance(n, int):
             m.undecided('sendto with a symbolic length')
         r = m.region_of(buf, 'sendto')
-        out['img'] = [r.get(buf.off + i) for i in range(n)]
-        out['len'] = n
+        m.w.sent = {'img': [r.get(buf.off + i) for i in range(n)], 'len': n}
         raise bpa.Halt()
-    ext = ext_models()
+    ext = ext_models(concrete_clock=level >= 1)
     ext.update({'read': read, 'sendto': sendto, 'close': const(0), 'argp_parse': const(0)})
     over = {'create_talker_socket_udp': const(5), 'create_talker_socket': const(5), 'setup_udp_socket_address': const(0),
             'setup_socket_address': const(0), 'setup_can_socket': const(6)}
@@ -163,16 +188,27 @@ def talker(tm, use_tscf, use_udp, fd, frames):
     def mk():
         state['k'] = 0
         return [1, bpa.NULL][:len(mfn.params)], dict((k, Region(v.name, v.kind, v.size, dict(v.mem), v.writable)) for k, v in regs.items())
-    ws = bpa.analyse(tm, 'main', mk, max_worlds=4, max_steps=800000, externals=ext, overrides=over)
-    if len(ws) != 1 or ws[0].status != 'ok' or 'img' not in out:
-        return None, 'talker side: %s' % [w.reason for w in ws]
+    ws = bpa.analyse(tm, 'main', mk, max_worlds=cap, max_steps=800000, externals=ext, overrides=over,
+                     alloca_kind='sym')
+    ws = [w for w in ws if w.status != 'infeasible' and not B.PathCond(w.decisions).infeasible]
+    # one packet per feasible world of the talker (data-dependent control in the library forks it)
+    if len(ws) >= cap:
+        return None, 'talker side: control depends on data, more than %d worlds' % cap
+    if not ws or any(w.status != 'ok' or not hasattr(w, 'sent') for w in ws):
+        return None, 'talker side: %s' % sorted(set((w.reason or 'main() returned without sending') for w in ws
+                                                    if w.status != 'ok' or not hasattr(w, 'sent')))
     cf = 4 if use_udp else 0
     hdr = 24 if use_tscf else 12
-    out['cf'] = cf
-    out['acf'] = out['len'] - cf - hdr
-    out['ids'] = ids
-    out['flags'] = flg
-    return out, None
+    outs = []
+    for w in ws:
+        o = dict(w.sent)
+        o['cf'] = cf
+        o['acf'] = o['len'] - cf - hdr
+        o['ids'] = ids
+        o['flags'] = flg
+        o['decisions'] = list(w.decisions)
+        outs.append(o)
+    return outs, None
 
 
 def announced(img, cf, use_tscf):
@@ -188,7 +224,7 @@ def announced(img, cf, use_tscf):
     return None
 
 
-def listener(lm, use_udp, fd, img):
+def listener(lm, use_udp, fd, img, nframes=None):
     dg = Region('dgram', 'sym', len(img))
     for i, x in enumerate(img):
         dg.mem[i] = x
@@ -206,11 +242,18 @@ def listener(lm, use_udp, fd, img):
     results = []
 
     def script(m, args):
-        m.externals = ext_models(m.w.regions['dgram'], holder['w'])
-        r = m.call('new_packet', args)
+        m.externals = ext_models(m.w.regions['dgram'], holder['w'], max_writes=(nframes + 1) if nframes is not None else None)
+        try:
+            r = m.call('new_packet', args)
+        except bpa.Halt:
+            results.append((list(holder['w']), None))
+            raise
         results.append((list(holder['w']), r))
         return r
-    ws = bpa.analyse(lm, script, mk, max_worlds=512, max_steps=600000)
+    # bulk packets carry concrete flags: a correct listener stays on one path; one that starts to interpret payload
+    # octets as headers forks without end - cap it early
+    cap = 512 if (nframes is None or nframes <= 3) else 16
+    ws = bpa.analyse(lm, script, mk, max_worlds=cap, max_steps=600000)
     out = []
     k = 0
     for w in ws:
@@ -230,33 +273,63 @@ def expect_can_id(cid):
 def judge(t):
     use_tscf, use_udp, fd, frames = t
     tm, lm = MOD['talker'], MOD['listener']
-    tk, err = talker(tm, use_tscf, use_udp, fd, frames)
+    tks, err = talker(tm, use_tscf, use_udp, fd, frames)
     tag = '%s/%s/%s' % ('TSCF' if use_tscf else 'NTSCF', 'UDP' if use_udp else 'raw', 'FD' if fd else 'classic')
     fl = ['%s len %d' % f for f in frames]
     if len(fl) > 6:
         fl = fl[:3] + ['... %d frames in all, %d ACF octets' % (len(frames), sum(((16 + f[1] + 3) // 4) * 4 for f in frames))]
     desc = '%s, frames %s' % (tag, fl)
-    if tk is None:
+    if tks is None:
         return [('undecided', 'talker', desc + ': ' + err)], 1, 0, None
+    if tks[0]['level']:
+        desc += ' [talker control depends on frame data: %s fixed to constants]' % \
+            ('flags and timestamp' if tks[0]['level'] == 1 else 'flags, timestamp and identifiers')
+    out = []
+    sample = None
+    for tk in tks:
+        o1, s1 = judge_packet(t, tk, desc)
+        for x in o1:
+            if x not in out:
+                out.append(x)
+        sample = sample or s1
+    aspects = ['announced-length', 'frame-count', 'identifier', 'rtr', 'eff', 'len', 'data'] + (['brs', 'esi', 'fdf'] if fd else [])
+    failed = set()
+    for st, key, text in out:
+        for a in aspects:
+            if (':' + a + ':') in (':' + key + ':') or key.startswith(a):
+                failed.add(a)
+    if sample is not None and len(tks) > 1:
+        sample['talker_worlds'] = len(tks)
+    if sample is not None:
+        sample['input_generality_level'] = tks[0]['level']
+    return out, len(aspects), len([a for a in aspects if a not in failed]), (sample if not out else None)
+
+
+def judge_packet(t, tk, desc):
+    """one packet (one world of the talker) through the listener; every comparison is made under the talker's and the
+    listener's path conditions together"""
+    use_tscf, use_udp, fd, frames = t
+    lm = MOD['listener']
+    tdec = tk['decisions']
     out = []
     ann = announced(tk['img'], tk['cf'], use_tscf)
     if ann != tk['acf']:
         out.append(('violation', 'announced-length', '%s: the control header announces %r octets of ACF messages, %d follow' % (desc, ann, tk['acf'])))
-    res = listener(lm, use_udp, fd, tk['img'])
+    res = listener(lm, use_udp, fd, tk['img'], len(frames))
     feas = []
     for w, wr in res:
-        if w.status == 'infeasible' or B.PathCond(w.decisions).infeasible:
+        if w.status == 'infeasible' or B.PathCond(tdec + list(w.decisions)).infeasible:
             continue
         if w.status != 'ok':
             out.append(('undecided', 'listener', '%s: listener side: %s' % (desc, w.reason)))
             continue
         feas.append((w, wr))
-    if len(res) >= 512:
-        out.append(('undecided', 'listener', '%s: more than 512 worlds' % desc))
+    if len(res) >= (512 if len(frames) <= 3 else 16):
+        out.append(('undecided', 'listener', '%s: more than %d worlds' % (desc, 512 if len(frames) <= 3 else 16)))
     cls0 = frames[0][0] if len(frames) == 1 else 'multi'
     checked = set()
     for w, wr in feas:
-        with FC.with_world(w.decisions):
+        with FC.with_world(tdec + list(w.decisions)):
             # is this world reachable at all for well-formed inputs?
             if len(wr) != len(frames):
                 wit = FC.find_witness(0, 1)   # any assignment satisfying the path condition
@@ -323,13 +396,7 @@ def judge(t):
             sample = {'scenario': desc, 'packet_octets_sent_by_talker_main': tk['len'], 'announced_acf_octets': ann,
                       'listener_worlds': len(feas), 'frames_written': len(wr0),
                       'frame0_can_id_out_msb_first': B.fmt_vec(tuple(idv), 32), 'frame0_len_out': wr0[0][4]}
-    aspects = ['announced-length', 'frame-count', 'identifier', 'rtr', 'eff', 'len', 'data'] + (['brs', 'esi', 'fdf'] if fd else [])
-    failed = set()
-    for st, key, text in out:
-        for a in aspects:
-            if (':' + a + ':') in (':' + key + ':') or key.startswith(a):
-                failed.add(a)
-    return out, len(aspects), len([a for a in aspects if a not in failed]), sample
+    return out, sample
 
 
 def short(t):
@@ -408,6 +475,8 @@ def run(tier, res):
         if smp and (len(t[3]) > 1 or t[3][0][1] in (0, 8, 64)):
             res.sample(smp, limit=6)
         res.count('tunnel scenarios analysed (control format x encapsulation x variant x frames)')
+        if smp and smp.get('input_generality_level'):
+            res.count('scenarios decided with flags/timestamp/identifiers fixed (talker control depends on frame data)')
         res.count('aspects compared (announced length, frame count, identifier, flags, length, data)', n_asp)
         res.obligations += n_asp
         res.discharged += n_ok
